@@ -7,7 +7,7 @@ import (
 
 func init() {
 	plans["C15"] = Plan{Prop: "C15", Level: "exploration",
-		Rule: "one case = one generated valid UDA document (entity array with context, or transaction; default '_' prefix or absolute http/https URIs; all JSON value shapes, nested entities, array refs, shuffled key order, deleted/recorded fields; key-omission dimension: in half of the documents an entity or nested entity without properties / references leaves the props / refs key out (bare tombstones, nested entities with props only / refs only / id only); identifier-shape dimension: in half of the documents ids, reference values, property and reference keys get local parts containing ':', '/', '#', '%', non-ASCII letters or sub-delimiters, written as prefix:local, as bare names under the default prefix, or absolutely) plus N inputs derived from it by ONE grammar mutation each (wrong JSON type / null / missing for id, deleted, recorded, props, refs, ref values, namespaces, expansions, context, elements, dataset values; unknown and duplicate keys; unresolvable CURIEs; deep arrays; truncation; trailing garbage; empty body) or by byte noise. " +
+		Rule: "one case = one generated valid UDA document (entity array with context, or transaction; default '_' prefix or absolute http/https URIs; all JSON value shapes, nested entities, array refs, shuffled key order, deleted/recorded fields; key-omission dimension: in half of the documents an entity or nested entity without properties / references leaves the props / refs key out (bare tombstones, nested entities with props only / refs only / id only); identifier-shape dimension: in half of the documents ids, reference values, property and reference keys get local parts containing ':', '/', '#', '%', non-ASCII letters or sub-delimiters, written as prefix:local, as bare names under the default prefix, or absolutely)  -- the first case of every child is instead a large-but-flat document (300-450 entities with 4-6 list-valued properties each and list-valued references, >1000 arrays side by side, none deeper than two levels, as entity array or, at the Go boundary, transaction) -- plus N inputs derived from it by ONE grammar mutation each (wrong JSON type / null / missing for id, deleted, recorded, props, refs, ref values, namespaces, expansions, context, elements, dataset values; unknown and duplicate keys; unresolvable CURIEs; deep arrays; truncation; trailing garbage; empty body) or by byte noise. " +
 			"Go boundary (c15parse): recover() around ParseStream/ParseTransaction; the valid document must parse to exactly the model entities and store/list/feed as the model says; the stored entities and changes, serialised the way the read handlers do (dataset context, json.Marshal per entity, continuation element), must be read back by the hub's own parser to the same entities, and a reader that uses nothing but JSON and the collection's own context (local part = everything after the first colon) must get them too; an input that is definitely not a valid payload must return an error, and the entities emitted before the error must be the well-formed elements preceding the malformed one. " +
 			"HTTP boundary (c15http, full app through echo.ServeHTTP incl. recover middleware): POST valid -> GET entities/changes (limits 0,1,3,10 following continuation tokens), every response fed back to the hub's own parser and compared with the model and with the Go API, and read a second time with the response's own context only; the GET entities and GET changes bodies (continuation element taken off) are POSTed into a fresh dataset, which must accept them and then hold the same entities / history; mutated POSTs (fresh dataset each): no generic 500 (panic), definitely malformed => 4xx, dataset holds only well-formed preceding elements. c15deep: 10^4..5*10^6 deep nesting in a sub-process. c15nsconc (full app, GOMAXPROCS 16 and 4): 12-16 clients POST at the same instant, each into its own dataset, a valid payload whose ids / property keys / reference keys live in three namespaces the hub has never seen, three rounds; then the application is stopped and booted again on the same directories: the context serialised per dataset and globally must be the one serialised before the restart, and every dataset must pass the whole GET -> parse back (hub parser and response-context-only reader) -> POST into another dataset check, once right after the restart and once more after a further new namespace was introduced. " +
 			"Non-trivial = at least one mutated input, or the valid document has a nested-entity / array shape",
